@@ -250,6 +250,14 @@ var c06Producers = []c06Producer{
 	{"string + int", false, func(L int) string { return fmt.Sprintf("out := %q + 12345", rep("a", L-5)) }},
 	{"string + float", false, func(L int) string { return fmt.Sprintf("out := %q + 2.5", rep("a", L-3)) }},
 	{"string + char", false, func(L int) string { return fmt.Sprintf("out := %q + 'c'", rep("a", L-1)) }},
+	{"string + 2-byte char", false, func(L int) string { return fmt.Sprintf("out := %q + 'é'", rep("a", L-2)) }},
+	{"string + 3-byte char", false, func(L int) string { return fmt.Sprintf("out := %q + '日'", rep("a", L-3)) }},
+	{"string + 4-byte char", false, func(L int) string { return fmt.Sprintf("out := %q + '😀'", rep("a", L-4)) }},
+	{"string += 3-byte char in loop", false, func(L int) string {
+		return fmt.Sprintf("out := %q; for i := 0; i < %d; i++ { out += '日' }", rep("a", L%3), L/3)
+	}},
+	{"string + multi-byte string", false, func(L int) string { return fmt.Sprintf("a := %q; out := a + \"日本\"", rep("a", L-6)) }},
+	{"string(char)+", false, func(L int) string { return fmt.Sprintf("out := %q + string('語')", rep("a", L-3)) }},
 	{"string + bool", false, func(L int) string { return fmt.Sprintf("out := %q + true", rep("a", L-4)) }},
 	{"string + array", false, func(L int) string { return fmt.Sprintf("out := %q + [1, 2]", rep("a", L-6)) }},
 	{"string + bytes", false, func(L int) string { return fmt.Sprintf("out := %q + bytes(\"xyz\")", rep("a", L-3)) }},
@@ -283,7 +291,7 @@ var c06Producers = []c06Producer{
 }
 
 // producers whose operands are built at run time (no long literal in the source)
-var c06Built = map[string]bool{"string += in loop": true, "string(bytes)": true, "format %*d": true, "format %-*d": true, "format %0Nd": true, "format %.Nf": true,
+var c06Built = map[string]bool{"string += 3-byte char in loop": true, "string += in loop": true, "string(bytes)": true, "format %*d": true, "format %-*d": true, "format %0Nd": true, "format %.Nf": true,
 	"format %Nx string": true, "format %-Ns": true, "bytes + bytes": true, "bytes(n)": true, "bytes(string)": true, "bytes += in loop": true, "string + string": true}
 
 func (c *c06) lengthCase(r *fw.Rec, rng *rand.Rand, idx int) {
